@@ -720,7 +720,7 @@ func mapOrderFrom(observed []obs.Event) func(loop int, remaining []reflect.Value
 func init() {
 	register(&Prop{
 		ID:   "C02",
-		Rule: "one rule per case: statement trees (depth <= 4, <= 30 statements) over int/bool/string/float locals and an injected world (pointer struct with int64/uint64/float64/string/bool fields, slice, array, string-keyed map; directly injected slice, maps, pointer array): plain and compound assignments to locals, fields and elements, if with 0-3 else-if and optional else (conditions often simultaneously true), for loops with literal bounds <= 5 whose condition / step may be recording functions, forRange over slices, arrays and maps (possibly empty), break/continue under arbitrary if nesting inside loops, return (bare or with value) at the end of any block at any depth, reads of locals assigned only on some path, tr(n) observer calls everywhere; oracle = reference interpreter replaying the same program (map iteration order taken from the observed run): exact observer trace, returned flag and value, error-ness and the complete final host world must agree. Non-trivial: the reference execution hit continue in a for, break in an inner loop, a return that skips later statements, an else-if/else branch, a compound assignment on an injected target, or a read of a local assigned in a nested block; distinct by case hash",
+		Rule: "one rule per case: statement trees (depth <= 4, <= 30 statements) over int/bool/string/float locals and an injected world (pointer struct with int64/uint64/float64/string/bool fields, slice, array, string-keyed map; directly injected slice, maps, pointer array): plain and compound assignments to locals, fields and elements, if with 0-3 else-if and optional else (conditions often simultaneously true), for loops with literal bounds <= 5 whose condition / step may be recording functions, forRange over slices, arrays and maps (possibly empty), break/continue under arbitrary if nesting inside loops, return (bare or with value) at the end of any block at any depth, reads of locals assigned only on some path, tr(n) observer calls everywhere; oracle = reference interpreter replaying the same program (map iteration order taken from the observed run): exact observer trace, returned flag and value, error-ness and the complete final host world must agree. Conditions are pure expressions or comparisons on a stateful observed counter nx() (every evaluation of a condition is visible in the trace and changes the next one). Non-trivial: the reference execution hit continue in a for, break in an inner loop, a return that skips later statements, an else-if/else branch, a compound assignment on an injected target, or a read of a local assigned in a nested block; distinct by case hash",
 		New:  func() interface{} { return &C02Case{} },
 		Gen: func(t *rapid.T) interface{} {
 			c := &C02Case{World: genStmtWorld(t)}
